@@ -8,6 +8,8 @@
 
 __all__ = """
 SHOW_INFORMATIONAL_MESSAGES
+check_workers
+put_checking_workers
 resolve_parallelism
 """.split()
 
@@ -71,3 +73,53 @@ def resolve_parallelism(parallel):
         return parallel
 
     return 1
+
+
+def check_workers(workers, done_event=None, queues=()):
+    """Raise an exception if any worker process has exited abnormally.
+
+    Parameters
+    ----------
+    workers : iterable of :class:`multiprocessing.Process`
+        The worker processes to examine.
+    done_event : optional :class:`multiprocessing.Event`
+        If provided and a failure is detected, the event is set before raising
+        so that the surviving workers wind down.
+    queues : optional iterable of :class:`multiprocessing.Queue`
+        If a failure is detected, these queues are told not to wait for the
+        delivery of their buffered items when this process exits, since there
+        may be no one left to receive them.
+
+    Notes
+    -----
+    An exception raised inside a worker process only terminates that process;
+    unless the parent looks at the exit status, the error is silently lost.
+    """
+    failed = [w for w in workers if w.exitcode not in (None, 0)]
+
+    if not failed:
+        return
+
+    if done_event is not None:
+        done_event.set()
+
+    for q in queues:
+        q.cancel_join_thread()
+
+    raise RuntimeError(
+        f"{len(failed)} parallel worker process(es) exited with an error; "
+        "the operation did not complete"
+    )
+
+
+def put_checking_workers(queue, item, workers, done_event):
+    """Put an item on a bounded queue, raising an exception instead of blocking
+    forever if a worker process has died and the queue stays full."""
+    from queue import Full
+
+    while True:
+        try:
+            queue.put(item, True, timeout=1)
+            return
+        except Full:
+            check_workers(workers, done_event, (queue,))
